@@ -698,7 +698,7 @@ func permutations(n int) [][]int {
 // otherwise insertion order, its reverse and all rotations.
 func (p *Path) Permute(es []*mapEntry) []*mapEntry {
 	n := len(es)
-	if n <= 1 || p.mapFixed {
+	if n <= 1 || p.mapFixed || p.mapMode == 2 {
 		return es
 	}
 	var perms [][]int
